@@ -108,9 +108,9 @@ class C05Oracle(BaseOracle):
         if xs_expected is not None:
             xs = xs_expected
             if mbs and mbs[0][1] != xs_expected:
-                return self.v("explained-data", "explained %d rows %r, expected the %d rows %r"
-                              % (len(mbs[0][1]), [row_tag(w, x) for x in mbs[0][1]], len(xs_expected),
-                                 [row_tag(w, x) for x in xs_expected]), explainer=k, cls=ecfg["cls"])
+                # how the library batches its model calls (one call, chunks, row by row) is its own business: the
+                # values below are judged against the data the property says must be explained
+                self.probe("batch_call_not_over_whole_data")
         elif mbs:
             xs = mbs[0][1]
         else:
